@@ -149,6 +149,11 @@ class Flow:
                     ]
                     if inner and stores:
                         got.add(name)
+            # import aliases of those (`from ._memo import memo as _memo`)
+            for mi in self.repo.modules.values():
+                for local, (_src, attr) in mi.imports.items():
+                    if attr in got and attr not in ("cache",):
+                        got.add(local)
             self._memo_decos = got
         return got
 
@@ -294,6 +299,15 @@ class Flow:
                     for r in self.return_origins(t):
                         out |= self._subst(r, t, n, fi, recv_cls, _depth, _seen)
                 return out
+            if isinstance(f, ast.Attribute) and f.attr in ("get", "setdefault", "pop", "popleft", "popitem") and name and (
+                name.startswith(("builtins.dict", "builtins.list", "collections.", "dict.", "list.", "typing.")) or name.split(".")[0] in ("dict", "list", "defaultdict", "deque", "OrderedDict")
+            ):
+                # element look-up in a builtin container: the element, not a new object
+                base = self.origins(fi, f.value, recv_cls, _depth + 1, _seen)
+                els = {("elem", b) if b[0] != "fresh" else ("elemfresh",) for b in base}
+                if f.attr in ("get", "setdefault") and len(n.args) > 1:
+                    els |= self.origins(fi, n.args[1], recv_cls, _depth + 1, _seen)
+                return els
             if isinstance(f, ast.Attribute) and f.attr in FRESH_METHODS:
                 return {("fresh",)}
             if name and not name.startswith(self.repo.package) and not name.startswith(("?", "<")):
